@@ -71,7 +71,9 @@ fn merge_st(c: &mut Ctx, a: &St, b: &St) -> St {
     }
     for (k, v) in regs.iter_mut() { if !b.regs.contains_key(k) { v.flag = true; } }
     let mut slots = a.slots.clone();
+    if mutn() == 5 { slots.retain(|k, _| b.slots.contains_key(k)); }
     for (k, vb) in &b.slots {
+        if mutn() == 5 && !a.slots.contains_key(k) { continue; }
         let m = match slots.get(k) { Some(va) => va.union(vb), None => { let mut x = vb.clone(); x.flag = true; x } };
         slots.insert(*k, m);
     }
@@ -186,7 +188,7 @@ fn step_def(c: &mut Ctx, st: &mut St, d: &Def, sig: bool) -> Option<Addr> {
                 }
                 Addr::Val(av) => {
                     if let Some(x) = av { if x.rel.is_empty() && (x.abs || x.u) { c.oob.push("load through a constant / untracked address".into()); } }
-                    if sig { flag_ids(st, av, "rd"); }
+                    if sig && mutn() != 8 { flag_ids(st, av, "rd"); }
                     Some(Val::unk())
                 }
             };
@@ -289,7 +291,7 @@ fn return_transfer_pi(c: &mut Ctx, st: &St, sg: &St, call: &Tid, gparams: &BTree
         set_reg(&mut n, ret, Some(r));
     }
     let keep = referenced(&n);
-    n.objs.retain(|k, _| keep.contains(k));
+    if mutn() != 2 { n.objs.retain(|k, _| keep.contains(k)); }
     Some(n)
 }
 
@@ -418,7 +420,8 @@ struct Uaf<'a> {
 
 /// targets of a value (the checker looks at relative targets only)
 fn targets(v: &V) -> Vec<Id> { match v { Some(x) => x.rel.iter().cloned().collect(), None => vec![] } }
-fn markable(st: &St, id: &Id) -> bool { match id { Id::Obj(o) => st.objs.get(o) != Some(&2), Id::Par(_) => true } }
+fn mutn() -> u32 { std::env::var("X06_MUT").ok().and_then(|x| x.parse().ok()).unwrap_or(0) }
+fn markable(st: &St, id: &Id) -> bool { if mutn() == 1 { return true; } match id { Id::Obj(o) => st.objs.get(o) != Some(&2), Id::Par(_) => true } }
 fn used(m: u8) -> u8 { (m & (N | F)) | if m & D != 0 { F } else { 0 } }
 
 /// one check of a list of values (an address, or all checked parameters of one call): warn if a target is
@@ -488,6 +491,7 @@ fn uaf_fn(u: &mut Uaf, s: usize, pi: &FnRes, callee: Option<(&FnRes, &Vec<Option
                                         let (x, y) = (n.0.get(&id), n.1.get(&id));
                                         if x & D != 0 { wa = true; }
                                         if y & D != 0 && x & F == 0 { wm = true; }
+                                        if mutn() == 7 && x & F != 0 { continue; }
                                         n.0.set(&id, D);
                                         n.1.set(&id, D);
                                     }
@@ -504,7 +508,7 @@ fn uaf_fn(u: &mut Uaf, s: usize, pi: &FnRes, callee: Option<(&FnRes, &Vec<Option
                         // Call edge and return: the parameters the callee dereferences are checked
                         let mut n = mm.clone();
                         let ps = match pist { Some(ps) => ps, None => { continue; } };
-                        let vals: Vec<V> = gderef.iter().map(|p| ps.regs.get(p).cloned()).collect();
+                        let vals: Vec<V> = (if mutn() == 4 { gparams } else { gderef }).iter().map(|p| ps.regs.get(p).cloned()).collect();
                         check_vals(u, &mut n, &vals, "CWE416", &site);
                         let r = match return_ { Some(r) => r, None => continue };
                         // the renaming map exists if some returning block of the callee is alive in the pointer inference
@@ -516,7 +520,7 @@ fn uaf_fn(u: &mut Uaf, s: usize, pi: &FnRes, callee: Option<(&FnRes, &Vec<Option
                             let mut objs: BTreeSet<Id> = BTreeSet::new();
                             for p in gparams { objs.extend(targets(&ps.regs.get(p).cloned())); }
                             for o in objs {
-                                if o == Id::Obj(site.clone()) || !markable(ps, &o) { continue; }
+                                if (mutn() != 3 && o == Id::Obj(site.clone())) || !markable(ps, &o) { continue; }
                                 let pp: Vec<&String> = gparams.iter().filter(|p| targets(&ps.regs.get(*p).cloned()).contains(&o)).collect();
                                 let can_d_may = pp.iter().any(|p| gmay.get(&Id::Par((*p).clone())) & D != 0);
                                 let can_d_must = pp.iter().any(|p| { let m = gmay.get(&Id::Par((*p).clone())); m & D != 0 && m & F == 0 });
